@@ -448,10 +448,12 @@ func runC09(c *Ctx) {
 		}{{"Consume", []*types.Var{ri, wi}}, {"Discard", []*types.Var{si, ri, wi}}} {
 			fn := p.Method("sonic", bbT, spec.name)
 			amounts := map[*types.Var]ssa.Value{}
+			var sites []ssa.Instruction
 			for _, f := range spec.moved {
-				for _, a := range storesTo(fn, f) {
-					if bo, ok := stripConv(a.Val).(*ssa.BinOp); ok && bo.Op == token.SUB && loadOfField(bo.X, f) {
-						amounts[f] = stripConv(bo.Y)
+				for _, d := range deepStoresTo(fn, f) {
+					if bo, ok := stripConv(d.Store.Val).(*ssa.BinOp); ok && bo.Op == token.SUB && loadOfField(bo.X, f) {
+						amounts[f] = stripConv(d.translate(bo.Y))
+						sites = append(sites, d.Site)
 					}
 				}
 			}
@@ -483,12 +485,10 @@ func runC09(c *Ctx) {
 				if !ok || !loadOfField(src.X, dataF) || !loadOfField(src.High, wi) {
 					return
 				}
-				dom := true
-				for _, f := range spec.moved {
-					for _, a := range storesTo(fn, f) {
-						if !dominatesInstr(call, a.Instr) {
-							dom = false
-						}
+				dom := len(sites) > 0
+				for _, site := range sites {
+					if !dominatesInstr(call, site) {
+						dom = false
 					}
 				}
 				if dom {
